@@ -1,17 +1,31 @@
-// C12 — fact extractor: the I/O step list of exchange.ClientExchange.Run with one `timed` flag
-// per transport call, regenerated from /repo/exchange/{client_flow.go,proto.go} with go/ast.
+// C12 — fact extractor.  It does not decide anything: it emits, for exchange.ClientExchange.Run and
+// for every method of exchange.unencryptedWriter, the skeleton of the statements that matter for
+// timing, in source order, and the Lean model (TdModel/Model/C12.lean) interprets that skeleton
+// (which context a transport call gets, whether it sits in a retry loop).
+//
+// rows (kind, a, b):
+//
+//	("wt", D, "")        top-level statement `ctx, cancel := context.WithTimeout(ctx, D)` of the function
+//	("wt?", D, "")       the same statement anywhere else (inside an if / loop / closure): conditional
+//	("rebind", E, "")    any other assignment to `ctx`
+//	("call", F, A)       transport call `<recv>.conn.Recv/Send(A, …)`; F = "Recv" | "Send"
+//	("helper", M, A)     call of method M of unencryptedWriter with first argument A
+//	("loop", "", "") … ("end", "", "")   the body of a `for` statement
 package main
 
 import (
 	"fmt"
 	"go/ast"
+	"go/parser"
 	"go/token"
+	"os"
+	"path/filepath"
+	"sort"
 	"strings"
 
 	"verif/harness/hc"
 )
 
-// selPath renders a selector chain `a.b.c` ("" when the expression is not a pure chain).
 func selPath(e ast.Expr) string {
 	switch x := e.(type) {
 	case *ast.Ident:
@@ -26,135 +40,222 @@ func selPath(e ast.Expr) string {
 	return ""
 }
 
-func isIdent(e ast.Expr, name string) bool {
-	id, ok := e.(*ast.Ident)
-	return ok && id.Name == name
+func oneLine(s string) string { return strings.Join(strings.Fields(s), " ") }
+
+type skel struct {
+	f       *hc.Facts
+	recv    string          // receiver name of the function being walked
+	methods map[string]bool // methods of unencryptedWriter
+	rows    []string
 }
 
-// withTimeoutStmt reports whether st is `ctx, cancel := context.WithTimeout(ctx, <recv>.timeout)`.
-func withTimeoutStmt(st ast.Stmt, recv string) bool {
+func (s *skel) add(kind, a, b string) {
+	s.rows = append(s.rows, fmt.Sprintf("(%q, %q, %q)", kind, a, b))
+}
+
+func firstArg(f *hc.Facts, c *ast.CallExpr) string {
+	if len(c.Args) == 0 {
+		return ""
+	}
+	return oneLine(f.Src(c.Args[0]))
+}
+
+// assignsCtx: the statement (re)binds the identifier ctx; returns the WithTimeout duration if it is
+// `ctx, cancel := context.WithTimeout(ctx, D)` / `ctx, cancel = …`.
+func (s *skel) assignsCtx(st ast.Stmt) (is bool, wtDur string) {
 	as, ok := st.(*ast.AssignStmt)
-	if !ok || as.Tok != token.DEFINE || len(as.Lhs) != 2 || len(as.Rhs) != 1 || !isIdent(as.Lhs[0], "ctx") {
-		return false
+	if !ok {
+		return false, ""
 	}
-	call, ok := as.Rhs[0].(*ast.CallExpr)
-	if !ok || selPath(call.Fun) != "context.WithTimeout" || len(call.Args) != 2 {
-		return false
-	}
-	return isIdent(call.Args[0], "ctx") && selPath(call.Args[1]) == recv+".timeout"
-}
-
-type ioCall struct {
-	name  string // callee as written in the source
-	recv  bool
-	timed bool
-}
-
-// helperIO lists the transport calls made by method `unencryptedWriter.<name>` (following calls to
-// other helpers of the same receiver) and whether each runs under
-// `ctx, cancel := context.WithTimeout(ctx, w.timeout)` placed as an earlier top-level statement
-// of the same function, with that `ctx` passed as the call's first argument.
-func helperIO(f *hc.Facts, name string, depth int) ([]ioCall, bool) {
-	fd := f.FuncDecl("exchange", "unencryptedWriter."+name)
-	if fd == nil || fd.Body == nil || fd.Recv == nil || len(fd.Recv.List) != 1 || len(fd.Recv.List[0].Names) != 1 || depth > 3 {
-		return nil, false
-	}
-	w := fd.Recv.List[0].Names[0].Name
-	var out []ioCall
-	ok := true
-	wrapped := false
-	for _, st := range fd.Body.List {
-		if withTimeoutStmt(st, w) {
-			wrapped = true
-			continue
+	hit := false
+	for _, l := range as.Lhs {
+		if id, ok := l.(*ast.Ident); ok && id.Name == "ctx" {
+			hit = true
 		}
-		ast.Inspect(st, func(n ast.Node) bool {
-			call, isCall := n.(*ast.CallExpr)
-			if !isCall {
-				return true
-			}
-			p := selPath(call.Fun)
-			switch {
-			case p == w+".conn.Recv" || p == w+".conn.Send":
-				out = append(out, ioCall{p, strings.HasSuffix(p, "Recv"), wrapped && len(call.Args) > 0 && isIdent(call.Args[0], "ctx")})
-			case strings.HasPrefix(p, w+".") && strings.Count(p, ".") == 1:
-				if sub := f.FuncDecl("exchange", "unencryptedWriter."+call.Fun.(*ast.SelectorExpr).Sel.Name); sub != nil {
-					inner, iok := helperIO(f, sub.Name.Name, depth+1)
-					if !iok {
-						ok = false
-					}
-					for _, c := range inner {
-						// an outer WithTimeout also bounds the inner call when ctx is passed down
-						c.timed = c.timed || (wrapped && len(call.Args) > 0 && isIdent(call.Args[0], "ctx"))
-						out = append(out, c)
-					}
+	}
+	if !hit {
+		return false, ""
+	}
+	if len(as.Lhs) == 2 && len(as.Rhs) == 1 {
+		if id, ok := as.Lhs[0].(*ast.Ident); ok && id.Name == "ctx" {
+			if c, ok := as.Rhs[0].(*ast.CallExpr); ok && selPath(c.Fun) == "context.WithTimeout" && len(c.Args) == 2 {
+				if a0, ok := c.Args[0].(*ast.Ident); ok && a0.Name == "ctx" {
+					return true, oneLine(s.f.Src(c.Args[1]))
 				}
 			}
-			return true
-		})
+		}
 	}
-	return out, ok
+	return true, ""
 }
 
-func leanBool(b bool) string {
-	if b {
-		return "true"
+// walk emits the rows of a statement list; top = the list is the function body itself.
+func (s *skel) walk(list []ast.Stmt, top bool) {
+	for _, st := range list {
+		if is, d := s.assignsCtx(st); is {
+			switch {
+			case d != "" && top:
+				s.add("wt", d, "")
+			case d != "":
+				s.add("wt?", d, "")
+			default:
+				s.add("rebind", oneLine(s.f.Src(st)), "")
+			}
+			continue
+		}
+		switch x := st.(type) {
+		case *ast.ForStmt:
+			s.add("loop", "", "")
+			if x.Init != nil {
+				s.walk([]ast.Stmt{x.Init}, false)
+			}
+			if x.Cond != nil {
+				s.exprs(x.Cond)
+			}
+			s.walk(x.Body.List, false)
+			if x.Post != nil {
+				s.walk([]ast.Stmt{x.Post}, false)
+			}
+			s.add("end", "", "")
+		case *ast.RangeStmt:
+			s.add("loop", "", "")
+			s.walk(x.Body.List, false)
+			s.add("end", "", "")
+		case *ast.BlockStmt:
+			s.walk(x.List, false)
+		case *ast.IfStmt:
+			if x.Init != nil {
+				s.walk([]ast.Stmt{x.Init}, false)
+			}
+			s.exprs(x.Cond)
+			s.walk(x.Body.List, false)
+			if x.Else != nil {
+				s.walk([]ast.Stmt{x.Else}, false)
+			}
+		case *ast.SwitchStmt:
+			if x.Init != nil {
+				s.walk([]ast.Stmt{x.Init}, false)
+			}
+			if x.Tag != nil {
+				s.exprs(x.Tag)
+			}
+			for _, c := range x.Body.List {
+				s.walk(c.(*ast.CaseClause).Body, false)
+			}
+		case *ast.TypeSwitchStmt:
+			for _, c := range x.Body.List {
+				s.walk(c.(*ast.CaseClause).Body, false)
+			}
+		case *ast.LabeledStmt:
+			s.walk([]ast.Stmt{x.Stmt}, top)
+		default:
+			s.exprs(st)
+		}
 	}
-	return "false"
+}
+
+// exprs emits the calls inside a node (in source order).
+func (s *skel) exprs(n ast.Node) {
+	ast.Inspect(n, func(m ast.Node) bool {
+		switch x := m.(type) {
+		case *ast.FuncLit:
+			s.add("loop", "", "") // a closure may run any number of times, with whatever ctx it sees
+			s.walk(x.Body.List, false)
+			s.add("end", "", "")
+			return false
+		case *ast.CallExpr:
+			p := selPath(x.Fun)
+			switch {
+			case p == s.recv+".conn.Recv" || p == s.recv+".conn.Send" || p == s.recv+".unencryptedWriter.conn.Recv" || p == s.recv+".unencryptedWriter.conn.Send":
+				for _, a := range x.Args {
+					s.exprs(a)
+				}
+				s.add("call", p[strings.LastIndex(p, ".")+1:], firstArg(s.f, x))
+				return false
+			case strings.HasPrefix(p, s.recv+".") && strings.Count(p, ".") == 1 && s.methods[p[len(s.recv)+1:]]:
+				for _, a := range x.Args {
+					s.exprs(a)
+				}
+				s.add("helper", p[len(s.recv)+1:], firstArg(s.f, x))
+				return false
+			}
+		}
+		return true
+	})
+}
+
+// methodNames lists the methods declared on type recvType in a package directory.
+func methodNames(repo, dir, recvType string) []string {
+	var out []string
+	ents, _ := os.ReadDir(filepath.Join(repo, dir))
+	fset := token.NewFileSet()
+	for _, e := range ents {
+		n := e.Name()
+		if e.IsDir() || !strings.HasSuffix(n, ".go") || strings.HasSuffix(n, "_test.go") || strings.HasPrefix(n, "verif_") {
+			continue
+		}
+		af, err := parser.ParseFile(fset, filepath.Join(repo, dir, n), nil, 0)
+		if err != nil {
+			continue
+		}
+		for _, d := range af.Decls {
+			fd, ok := d.(*ast.FuncDecl)
+			if !ok || fd.Recv == nil || len(fd.Recv.List) != 1 {
+				continue
+			}
+			t := fd.Recv.List[0].Type
+			if st, ok := t.(*ast.StarExpr); ok {
+				t = st.X
+			}
+			if id, ok := t.(*ast.Ident); ok && id.Name == recvType {
+				out = append(out, fd.Name.Name)
+			}
+		}
+	}
+	return out
 }
 
 func facts(f *hc.Facts) {
 	f.Const("defaultTimeoutNs", "exchange", "DefaultTimeout")
+	// the methods of unencryptedWriter
+	methods := map[string]bool{}
+	for _, name := range []string{"writeUnencrypted", "tryRead", "readUnencrypted", "isClient", "checkMsgID"} {
+		if f.FuncDecl("exchange", "unencryptedWriter."+name) != nil {
+			methods[name] = true
+		}
+	}
+	// any further method declared on the type
+	for _, name := range methodNames(f.Repo, "exchange", "unencryptedWriter") {
+		methods[name] = true
+	}
+	var names []string
+	for n := range methods {
+		names = append(names, n)
+	}
+	sort.Strings(names)
+	var hs []string
+	for _, n := range names {
+		fd := f.FuncDecl("exchange", "unencryptedWriter."+n)
+		if fd == nil || fd.Body == nil || fd.Recv == nil || len(fd.Recv.List) != 1 || len(fd.Recv.List[0].Names) != 1 {
+			f.Missing("helpers", "cannot read unencryptedWriter."+n)
+			return
+		}
+		s := &skel{f: f, recv: fd.Recv.List[0].Names[0].Name, methods: methods}
+		// the context parameter must be called ctx (or the method has none)
+		s.walk(fd.Body.List, true)
+		hs = append(hs, fmt.Sprintf("  (%q, [%s])", n, strings.Join(s.rows, ", ")))
+	}
+	f.Raw("/-- Timing skeleton of every method of exchange.unencryptedWriter (see harness/c12/facts.go for the row kinds). -/")
+	f.Raw("def helpers : List (String × List (String × String × String)) := [\n" + strings.Join(hs, ",\n") + "]")
+
 	run := f.FuncDecl("exchange", "ClientExchange.Run")
 	if run == nil || run.Body == nil || run.Recv == nil || len(run.Recv.List) != 1 || len(run.Recv.List[0].Names) != 1 {
-		f.Missing("exchangeSteps", "exchange.ClientExchange.Run not found")
+		f.Missing("runSkeleton", "exchange.ClientExchange.Run not found")
 		return
 	}
-	c := run.Recv.List[0].Names[0].Name
-	var steps []string
-	bad := ""
-	ast.Inspect(run.Body, func(n ast.Node) bool {
-		call, ok := n.(*ast.CallExpr)
-		if !ok {
-			return true
-		}
-		p := selPath(call.Fun)
-		switch {
-		case p == c+".conn.Recv" || p == c+".conn.Send" || p == c+".unencryptedWriter.conn.Recv" || p == c+".unencryptedWriter.conn.Send":
-			// a bare transport call: bounded only by the caller's context
-			steps = append(steps, fmt.Sprintf("(%q, %s, false)", strings.TrimPrefix(p, c+"."), leanBool(strings.HasSuffix(p, "Recv"))))
-		case strings.HasPrefix(p, c+".") && strings.Count(p, ".") == 1:
-			name := call.Fun.(*ast.SelectorExpr).Sel.Name
-			if f.FuncDecl("exchange", "unencryptedWriter."+name) == nil {
-				return true
-			}
-			ios, ok := helperIO(f, name, 0)
-			if !ok {
-				bad = "cannot analyse unencryptedWriter." + name
-			}
-			if len(ios) == 0 {
-				return true
-			}
-			// One step per helper call: a helper that loops over a read (readUnencrypted) is one
-			// protocol step; it is timed iff every transport call inside it is.
-			timed, recv := true, ios[0].recv
-			for _, io := range ios {
-				timed = timed && io.timed
-				if io.recv != recv {
-					bad = "helper " + name + " mixes Send and Recv"
-				}
-			}
-			steps = append(steps, fmt.Sprintf("(%q, %s, %s)", name, leanBool(recv), leanBool(timed)))
-		}
-		return true
-	})
-	if bad != "" || len(steps) == 0 {
-		f.Missing("exchangeSteps", "exchange.ClientExchange.Run: "+bad)
-		return
-	}
-	f.Raw("/-- (callee, isRecv, timed) for every transport call of exchange.ClientExchange.Run, in source order;")
-	f.Raw("`timed` = the call runs under `context.WithTimeout(ctx, w.timeout)` (exchange/proto.go). -/")
-	f.Raw("def exchangeSteps : List (String × Bool × Bool) := [" + strings.Join(steps, ", ") + "]")
+	s := &skel{f: f, recv: run.Recv.List[0].Names[0].Name, methods: methods}
+	s.walk(run.Body.List, true)
+	f.Raw("/-- Timing skeleton of exchange.ClientExchange.Run. -/")
+	f.Raw("def runSkeleton : List (String × String × String) := [" + strings.Join(s.rows, ", ") + "]")
 
 	// The timeout the steps run under is the Exchanger's `timeout` field, set by WithTimeout, and
 	// mtproto passes its ExchangeTimeout option there.
